@@ -666,8 +666,8 @@ struct Dims {
 };
 inline Dims dims(vf::Tier t)
 {
-    if (C06_BULK) { return Dims{7, 3, 300}; }
-    return t == vf::Tier::thorough ? Dims{6, 4, 1200} : Dims{5, 3, 120};
+    if (C06_BULK) { return Dims{7, 4, 1000}; }
+    return t == vf::Tier::thorough ? Dims{6, 4, 4000} : Dims{5, 3, 120};
 }
 
 // the unit provides these
@@ -720,7 +720,7 @@ inline void run_case(vf::Case& c)
     }
     x.a_str = show(x.a, false);
     x.hash  = hash_seq(x.a);
-    if (vf::want_sample(t.name)) {
+    if (x.a.size() >= 3 && vf::want_sample(t.name)) {
         vf::sample(t.name, "%s on a=%s (%s), %zu second ranges/needles", t.name, x.a_str.c_str(), c.enumerated ? "enumerated" : "random",
             x.needles.size());
     }
